@@ -163,6 +163,9 @@ def _variants0(prog):
             yield prog[:i] + list(s[6]) + prog[i + 1:]
             for b2 in _variants(list(s[6])):
                 yield prog[:i] + [s[:6] + (b2,)] + prog[i + 1:]
+        elif k == "forall":
+            for b2 in _variants(list(s[4])):
+                yield prog[:i] + [s[:4] + (b2,)] + prog[i + 1:]
         elif k == "begin":
             yield prog[:i] + list(s[1]) + prog[i + 1:]
             for b2 in _variants(list(s[1])):
